@@ -22,7 +22,7 @@ REQUIRED_THEOREMS = ['CfVerif.C13.' + t for t in (
     'coordinate_error_lt_one', 'yaw_error_lt_one', 'start_packs_or_raises', 'element_packs_or_raises',
     'pack_idempotent', 'upload_idempotent', 'upload_is_concatenation', 'led_write_idempotent', 'led_writes_see_only_sets',
     'timing_write_idempotent', 'timing_write_after_adds', 'incoming_memoryless', 'gen_objects',
-    'led_rgb565', 'led_monotone', 'led_black_white', 'led_timing_rgb565', 'led_timing_monotone', 'led_timing_black_white',
+    'led_rgb565', 'led_monotone', 'led_black_white', 'led_ring_is_map', 'led_ring_image', 'led_timing_is_map', 'gen_led_loops', 'led_timing_rgb565', 'led_timing_monotone', 'led_timing_black_white',
     'range_report_decodes', 'range_report_distinct', 'range_report_last_wins', 'lh_angle_decodes', 'incoming_malformed',
     'gen_quat_compress', 'gen_quat_decompress', 'gen_trajectory', 'gen_units', 'gen_led', 'gen_incoming', 'gen_lh_angle')]
 EXHAUSTIVE = True      # the half-float decoder and the LED mapping are checked on their whole (finite) domains, every run
@@ -41,7 +41,8 @@ RULE = ('cases = ALL 65536 half patterns (+ signed readings, wider ints); quater
         'for the largest component, negated, unnormalised, near-axis, negative-zero and random directions, sent to the model as exact '
         'integer quaternions; words for decompression incl. every index x sign pattern and words >= 2^32; coordinates/angles across '
         'and beyond the int16 range incl. decimal inputs whose binary64 product rounds onto an integer; ALL 256x101 (level, intensity) '
-        'pairs on every LED channel + wrapped / over-range values; range reports with 0..12 anchors incl. duplicate ids and truncated '
+        'pairs on every LED channel + wrapped / over-range values; WHOLE RINGS with the same colour at different intensities, gradients, '
+        'all-equal rings, one differing/dimmed LED, and timing sequences sharing colours; range reports with 0..12 anchors incl. duplicate ids and truncated '
         'packets; angle packets with special half/single patterns; HISTORIES on one object: pack() 2-5 times (incl. raising elements), the '
         'same trajectory list uploaded 2-4 times to several memories/addresses, set/intensity/write histories on one LED ring, add/write '
         'histories on one timing sequence, packet streams through one Localization object. distinct+non-trivial = distinct (operation, input)')
@@ -358,6 +359,97 @@ def _self_stores(fn):
     return [t for _, _, t in sorted(res)]
 
 
+def _loop_dependences(fn, iter_text):
+    """For the single `for <var> in <iter_text>:` loop of `fn`: what one iteration can see besides its own item.
+    Returns (carried, accumulators, self_reads, calls):
+      carried       local names READ in the body that are not (a) the loop variable, (b) assigned earlier in the same iteration
+                    unconditionally at the top level of the body (or earlier inside the same compound statement), i.e. values that
+                    flow in from before the loop or from a previous iteration;
+      accumulators  outer names that occur in the body only as `name += ...` targets (the output being built);
+      self_reads    `self.<attr>` expressions read in the body;
+      calls         names of everything called in the body."""
+    loops = [n for n in ast.walk(fn) if isinstance(n, ast.For) and ast.unparse(n.iter) == iter_text]
+    X.expect(len(loops) == 1 and isinstance(loops[0].target, ast.Name), '%s: expected exactly one `for <name> in %s` loop' % (fn.name, iter_text))
+    loop = loops[0]
+    var = loop.target.id
+    local_names = {a.arg for a in fn.args.args}
+    for n in ast.walk(fn):
+        if isinstance(n, ast.Name) and isinstance(n.ctx, (ast.Store, ast.Del)):
+            local_names.add(n.id)
+    aug_only = {}
+    for n in ast.walk(loop):
+        if isinstance(n, ast.AugAssign) and isinstance(n.target, ast.Name):
+            aug_only.setdefault(n.target.id, True)
+    for n in ast.walk(loop):
+        if isinstance(n, ast.Name) and isinstance(n.ctx, ast.Load) and n.id in aug_only:
+            aug_only[n.id] = False
+        if isinstance(n, ast.Assign):
+            for t in n.targets:
+                for m in ast.walk(t):
+                    if isinstance(m, ast.Name) and m.id in aug_only:
+                        aug_only[m.id] = False
+    accumulators = sorted(k for k, v in aug_only.items() if v)
+    carried = []
+
+    def names_stored(node):
+        return {m.id for m in ast.walk(node) if isinstance(m, ast.Name) and isinstance(m.ctx, ast.Store)}
+
+    def scan(stmts, defined):
+        """walk statements in order; `defined` = names certainly assigned earlier in this iteration on this path"""
+        defined = set(defined)
+        for st in stmts:
+            if isinstance(st, (ast.If, ast.For, ast.While, ast.Try, ast.With)):
+                heads = [st.test] if isinstance(st, (ast.If, ast.While)) else [st.iter] if isinstance(st, ast.For) else \
+                    [i.context_expr for i in st.items] if isinstance(st, ast.With) else []
+                for h in heads:
+                    check(h, defined)
+                inner = set(defined)
+                if isinstance(st, ast.For):
+                    inner |= names_stored(st.target)
+                for blk in ('body', 'orelse', 'finalbody'):
+                    scan(getattr(st, blk, []) or [], inner)
+                for hd in getattr(st, 'handlers', []) or []:
+                    scan(hd.body, inner)
+                # names assigned inside a compound statement are only conditionally defined afterwards
+                if isinstance(st, ast.If) and st.orelse:
+                    both = names_top(st.body) & names_top(st.orelse)
+                    defined |= both
+            else:
+                if isinstance(st, ast.AugAssign):
+                    check(st.value, defined)
+                    if isinstance(st.target, ast.Name):
+                        if st.target.id not in accumulators and st.target.id not in defined:
+                            note(st.target.id)
+                    else:
+                        check(st.target, defined)
+                else:
+                    check(st, defined)
+                defined |= names_stored(st)
+
+    def names_top(stmts):
+        out = set()
+        for st in stmts:
+            if not isinstance(st, (ast.If, ast.For, ast.While, ast.Try, ast.With)):
+                out |= names_stored(st)
+        return out
+
+    def note(name):
+        if name not in carried:
+            carried.append(name)
+
+    def check(node, defined):
+        for m in ast.walk(node):
+            if isinstance(m, ast.Name) and isinstance(m.ctx, ast.Load) and m.id != var and m.id not in defined and m.id in local_names \
+                    and m.id != 'self':
+                note(m.id)
+    scan(loop.body, set())
+    self_reads = sorted({ast.unparse(m) for st in loop.body for m in ast.walk(st)
+                         if isinstance(m, ast.Attribute) and isinstance(m.ctx, ast.Load) and ast.unparse(m).startswith('self.')
+                         and not any(isinstance(p, ast.Attribute) and p.value is m for p in ast.walk(st))})
+    calls = sorted({ast.unparse(m.func) for st in loop.body for m in ast.walk(st) if isinstance(m, ast.Call)})
+    return carried, accumulators, self_reads, calls
+
+
 def _init_assigns(fn):
     """(`self.a = <expr>` texts of an __init__, those whose value is NOT a bare parameter name or a literal)"""
     params = {a.arg for a in fn.args.args}
@@ -509,6 +601,11 @@ def extract(ctx):
     g.strings('ledSetStores', _self_stores(lset))
     g.strings('ledSetTests', [ast.unparse(n.test) for n in ast.walk(lset) if isinstance(n, ast.If)])
     g.strings('ledWriteStores', _self_stores(led))
+    carried, acc, reads, calls = _loop_dependences(led, 'self.leds')
+    g.strings('ledLoopCarried', carried)
+    g.strings('ledLoopAccumulators', acc)
+    g.strings('ledLoopSelfReads', reads)
+    g.strings('ledLoopCalls', calls)
     g.strings('ledWriteCalls', [ast.unparse(n) for n in ast.walk(led) if isinstance(n, ast.Call) and ast.unparse(n.func).endswith('mem_handler.write')])
 
     g.raw('\n/-! ### cflib/crazyflie/mem/led_timings_driver_memory.py -/\n')
@@ -532,6 +629,11 @@ def extract(ctx):
     g.raw('def ledtTerminator : List Int := [' + ', '.join(E(e, {}) for e in term[0].value.elts) + ']')
     ltmod = X.parse('cflib/crazyflie/mem/led_timings_driver_memory.py')
     g.strings('ledtWriteStores', _self_stores(lt))
+    carried, acc, reads, calls = _loop_dependences(lt, 'self.timings')
+    g.strings('ledtLoopCarried', carried)
+    g.strings('ledtLoopAccumulators', acc)
+    g.strings('ledtLoopSelfReads', reads)
+    g.strings('ledtLoopCalls', calls)
     g.strings('ledtWriteLoops', [ast.unparse(n.iter) for n in ast.walk(lt) if isinstance(n, ast.For)])
     g.strings('ledtAddStores', _self_stores(X.find(ltmod, 'LEDTimingsDriverMemory.add')))
     g.strings('ledtWriteCalls', [ast.unparse(n) for n in ast.walk(lt) if isinstance(n, ast.Call) and ast.unparse(n.func).endswith('mem_handler.write')])
@@ -1117,6 +1219,64 @@ def gen_quats(rng, n_random):
     return out
 
 
+def gen_rings(rng, n):
+    """whole ring contents (12 x (r, g, b, intensity)) in which LEDs are NOT independent-looking: the same colour at different
+    intensities, brightness gradients, all-equal rings, one differing LED, two alternating colours, repeated blocks"""
+    def colour():
+        r = rng.random()
+        if r < 0.3:
+            return rng.choice([(255, 255, 255), (0, 0, 0), (255, 0, 0), (0, 255, 0), (0, 0, 255), (128, 128, 128), (255, 255, 0)])
+        if r < 0.5:
+            c = rng.randrange(256)
+            return (c, c, c)
+        return (rng.randrange(256), rng.randrange(256), rng.randrange(256))
+    out = []
+    for k in range(n):
+        kind = ['same-colour-intensities', 'gradient-up', 'gradient-down', 'all-equal', 'one-differs', 'one-dimmed', 'two-colours',
+                'dim-first-then-full', 'blocks'][k % 9]
+        c = colour()
+        if kind == 'same-colour-intensities':
+            ring = [c + (rng.randrange(101),) for _ in range(12)]
+        elif kind == 'gradient-up':
+            ring = [c + (min(100, (100 * j) // 11),) for j in range(12)]
+        elif kind == 'gradient-down':
+            ring = [c + (100 - (100 * j) // 11,) for j in range(12)]
+        elif kind == 'all-equal':
+            ring = [c + (rng.choice([100, 100, 50, 0, rng.randrange(101)]),)] * 12
+        elif kind == 'one-differs':
+            ring = [c + (100,)] * 12
+            ring[rng.randrange(12)] = colour() + (rng.randrange(101),)
+        elif kind == 'one-dimmed':
+            ring = [c + (100,)] * 12
+            ring[rng.randrange(12)] = c + (rng.choice([0, 1, 4, 50, 99]),)
+        elif kind == 'two-colours':
+            d = colour()
+            ia, ib = rng.randrange(101), rng.randrange(101)
+            ring = [(c + (rng.choice([ia, 100]),)) if j % 2 == 0 else (d + (rng.choice([ib, 100]),)) for j in range(12)]
+        elif kind == 'dim-first-then-full':
+            ring = [c + (rng.choice([0, 1, 4, 10]),)] + [c + (100,)] * 11
+        else:
+            blk = [colour() + (rng.randrange(101),) for _ in range(3)]
+            ring = [blk[j % 3][:3] + (blk[j % 3][3] if j < 6 else rng.randrange(101),) for j in range(12)]
+        out.append((kind, ring))
+    return out
+
+
+def gen_timing_seqs(rng, n):
+    """timing sequences whose entries share colours but differ in time / leds / fade / rotate, and vice versa"""
+    out = []
+    for k in range(n):
+        cols = [(rng.randrange(256), rng.randrange(256), rng.randrange(256)) for _ in range(rng.choice([1, 2, 3]))] + [(255, 255, 255), (0, 0, 0)]
+        seq = []
+        for _ in range(rng.randrange(2, 10)):
+            c = rng.choice(cols)
+            seq.append((rng.randrange(1, 256), c[0], c[1], c[2], rng.randrange(16), rng.randrange(2), rng.randrange(8)))
+        if k % 3 == 0:
+            seq = [seq[0]] * len(seq)
+        out.append(seq)
+    return out
+
+
 def gen_cases(ctx):
     rng = ctx.rng
     thorough = ctx.tier == 'thorough'
@@ -1244,6 +1404,12 @@ def gen_cases(ctx):
                 leds.append((rng.randrange(256), rng.randrange(256), rng.randrange(256), rng.choice([100, 101, 150, 200, 255, 1000, 826])))
         add('led', 'led ' + ','.join('%d:%d:%d:%d' % l for l in leds), lambda leds=leds: real_led(leds),
             {'op': 'LEDDriverMemory.write_data', 'mode': mode, 'first': leds[0]}, ('led', tuple(leds)), 'led:' + mode)
+    for kind, leds in gen_rings(rng, 900 if thorough else 180):
+        add('led', 'led ' + ','.join('%d:%d:%d:%d' % l for l in leds), lambda leds=leds: real_led(leds),
+            {'op': 'LEDDriverMemory.write_data', 'ring': kind, 'first': leds[0]}, ('led', tuple(leds)), 'led:ring:' + kind)
+    for ts in gen_timing_seqs(rng, 300 if thorough else 60):
+        add('ledt', 'ledt ' + ','.join('%d:%d:%d:%d:%d:%d:%d' % t for t in ts), lambda ts=ts: real_ledt(ts),
+            {'op': 'LEDTimingsDriverMemory.write_data', 'n': len(ts), 'shared colours': True}, ('ledt', tuple(ts)), 'ledt:shared-colours')
     for _ in range(500 if thorough else 120):
         ts = []
         for _ in range(rng.randrange(0, 7)):
@@ -1662,6 +1828,67 @@ def search(ctx):
         want = (table[(r8, i)][0], table[(g8, i)][1], table[(b8, i)][2])
         if (w >> 11, (w >> 5) & 63, w & 31) != want or len(raw) != 24:
             ctx.witness('led-mix', 'mixed colour is not the combination of its channels', {'rgb': [r8, g8, b8], 'intensity': i}, got=w, want=want)
+    # (4b) the WHOLE ring: word k of one write is the RGB565 word of LED k alone, whatever the other LEDs are.  Rings with the same
+    #      colour at different intensities, gradients, all-equal rings, one differing LED ...; the per-LED reference is what the
+    #      same LED gives on a ring of 12 copies of itself
+    def fields(w):
+        return (w >> 11, (w >> 5) & 63, w & 31)
+    uniform = {}
+
+    def ref_word(led):
+        if led not in uniform:
+            raw = bytes.fromhex(ring_write([led] * 12)[3:])
+            ws = {(raw[2 * j] << 8) | raw[2 * j + 1] for j in range(12)}
+            uniform[led] = ws.pop() if len(ws) == 1 else None
+        return uniform[led]
+    for kind, leds in gen_rings(rng, 900 if thorough else 270):
+        r = ring_write(leds)
+        if not r.startswith('ok ') or len(r) != 3 + 48:
+            ctx.witness('led-raises', 'LED write_data raised / wrong size for in-range colours', {'ring': leds}, got=r)
+            continue
+        raw = bytes.fromhex(r[3:])
+        words = [(raw[2 * j] << 8) | raw[2 * j + 1] for j in range(12)]
+        bad = None
+        for j, (led, w) in enumerate(zip(leds, words)):
+            if led[:3] == (255, 255, 255) and led[3] == 100 and w != 0xFFFF:
+                bad = ('led-ring-white', 'a white LED at full intensity is not full scale when other LEDs of the ring differ', j)
+            elif led[:3] == (0, 0, 0) and w != 0:
+                bad = ('led-ring-black', 'a black LED is not 0 when other LEDs of the ring differ', j)
+            if bad:
+                break
+            for j2, (led2, w2) in enumerate(zip(leds, words)):
+                if led2[:3] == led[:3] and led2[3] <= led[3] and any(a > b for a, b in zip(fields(w2), fields(w))):
+                    bad = ('led-ring-monotone', 'within one ring, the same colour at a higher intensity gets a smaller RGB565 channel', j)
+                    break
+            if bad:
+                break
+        if bad is None:
+            for j, (led, w) in enumerate(zip(leds, words)):
+                if ref_word(led) is None or w != ref_word(led):
+                    bad = ('led-ring-cross-dependence', 'word of an LED depends on the other LEDs of the ring (differs from a ring of copies of it)', j)
+                    break
+        if bad:
+            ctx.witness(bad[0], bad[1], {'ring': [list(l) for l in leds], 'kind': kind, 'led_index': bad[2]},
+                        got=[list(fields(w)) for w in words], want_at_index=(list(fields(ref_word(leds[bad[2]]))) if ref_word(leds[bad[2]]) is not None else None))
+    # timing sequences with shared colours: entry k carries its own time byte and the colour word of timing k alone
+    single = {}
+    for seq in gen_timing_seqs(rng, 200 if thorough else 60):
+        rt = real_ledt(seq)
+        raw = bytes.fromhex(rt[3:]) if rt.startswith('ok ') else b''
+        if len(raw) != 4 * len(seq) + 4:
+            ctx.witness('ledt-raises', 'LED timings write_data did not produce one entry per timing + terminator', {'timings': seq}, got=rt[:200])
+            continue
+        for k, t in enumerate(seq):
+            col = t[1:4]
+            if col not in single:
+                r1 = bytes.fromhex(real_ledt([(1,) + col + (0, 0, 0)])[3:])
+                single[col] = (r1[1] << 8) | r1[2]
+            e = raw[4 * k:4 * k + 4]
+            if e[0] != t[0] or ((e[1] << 8) | e[2]) != single[col]:
+                ctx.witness('ledt-seq-cross-dependence', 'entry of a timing depends on the other timings of the sequence',
+                            {'timings': [list(x) for x in seq], 'index': k}, got=e.hex(), want_colour=single[col])
+                break
+
     # the timings driver (no intensity) must satisfy the same clauses on its own
     ttab = {}
     seqops = [('a', 1, c, c, c, 0, 0, 0) for c in range(256)] + [('w',), ('w',)]       # ONE sequence object, written twice
